@@ -1991,6 +1991,21 @@ func oracleC11(r *report, g *G, n int, single string) {
 			check(k, cs2)
 		case k == 8:
 			check(k, append(append([]string{}, cs...), "~Spread:612f62:1,63:2,642f23:0", "AddFilter:65:1"))
+			// the packet's first filters come from a slice of the caller; what the caller does
+			// with that slice afterwards is none of the packet's business
+			func() {
+				defer func() { recover() }()
+				pre := []string{"SetPacketID:7", "~Spread:612f62:1,63:2,642f23:0"}
+				if g.chance(50) {
+					pre = append(pre, "AddFilter:65:1")
+				}
+				p := build(8, pre)
+				before, snapBefore := frameOf(p), snapshot(p)
+				applyCall(p, "~Reuse")
+				if after := frameOf(p); !bytesEq(after, before) || snapshot(p) != snapBefore {
+					r.fail("nondeterministic-encoding", "W 8 A"+sp(append(pre, "~Reuse")), "the packet writes "+trunc(hexs(after))+" after the caller reused the slice it had passed to AddFilters; before "+trunc(hexs(before)))
+				}
+			}()
 		default:
 			check(k, g.interleaveRO(cs))
 		}
@@ -2096,8 +2111,8 @@ func (s *specPkt) apply(tok string) {
 		name, arg = tok[:i], tok[i+1:]
 	}
 	switch name {
-	case "~String", "~Dump", "~WriteTo", "~FailWrite", "~WellFormed", "~Acc":
-		return // read-only operations change nothing
+	case "~String", "~Dump", "~WriteTo", "~FailWrite", "~WellFormed", "~Acc", "~Reuse":
+		return // read-only operations, and what the caller does with its own slices, change nothing
 	case "~Spread":
 		for _, it := range strings.Split(arg, ",") {
 			s.apply("AddFilter:" + it)
@@ -2320,7 +2335,12 @@ func oracleC12(r *report, g *G, n int, single string) {
 				items = append(items, strings.TrimPrefix(g.arg(setter{"AddFilter", "filter"}), "AddFilter:"))
 			}
 			at := g.pick(len(cs) + 1)
+			if g.chance(50) {
+				at = 0 // the first filters of the packet
+			}
 			cs = append(append(append([]string{}, cs[:at]...), "~Spread:"+strings.Join(items, ",")), cs[at:]...)
+			at2 := at + 1 + g.pick(len(cs)-at)
+			cs = append(append(append([]string{}, cs[:at2]...), "~Reuse"), cs[at2:]...)
 		}
 		if g.chance(40) {
 			cs = g.interleaveRO(cs)
@@ -2806,7 +2826,21 @@ func pollute(g *G) {
 		p.WriteTo(&scriptWriter{mode: 'S', k: 1, err: injectedErr(2)})
 		_ = p.String()
 	}
-	for _, nm := range []string{"mqtt", "MQIs", "abc", "x", "MQTT", "MQIsdp", "\x00\x00\x00\x00", "mq"} {
+	old := g.nomagic
+	for i := 0; i < 60; i++ {
+		f := g.validFrame()
+		_, hl := splitFrame(f)
+		if hl > 0 && hl <= len(f) {
+			un(int(f[0]>>4), f[hl:], 1+g.pick(2))
+			if m := g.mutate(f); g.chance(30) && len(m) > hl {
+				un(int(f[0]>>4), m[hl:], 1)
+			}
+		}
+	}
+	g.nomagic = old
+	// last, so that nothing decoded later can put things right again: protocol names
+	// other than the default one
+	for _, nm := range []string{"MQTT", "MQIsdp", "abc", "x", "mq", "\x00\x00\x00\x00", "MQIs", "mqtt"} {
 		c := mq.NewConnect()
 		c.SetProtocolName(nm)
 		c.SetProtocolVersion(uint8(3 + g.pick(3)))
@@ -2822,18 +2856,6 @@ func pollute(g *G) {
 		un(1, f[hl:], 2)
 		readOnce(oneChunk(f))
 	}
-	old := g.nomagic
-	for i := 0; i < 60; i++ {
-		f := g.validFrame()
-		_, hl := splitFrame(f)
-		if hl > 0 && hl <= len(f) {
-			un(int(f[0]>>4), f[hl:], 1+g.pick(2))
-			if m := g.mutate(f); g.chance(30) && len(m) > hl {
-				un(int(f[0]>>4), m[hl:], 1)
-			}
-		}
-	}
-	g.nomagic = old
 }
 
 // canary: what freshly constructed packets of every type write and print. Taken
@@ -2893,6 +2915,20 @@ func oracleC02(r *report, g *G, n int, single string) {
 			p = build(k, cs)
 			return true
 		}()
+		if c1, isC := p.(*mq.Connect); ok && isC {
+			// "keeps the default protocol name and version": a CONNECT whose history never
+			// named either must carry MQTT / 5 (whatever the process did before)
+			named := false
+			for _, call := range cs {
+				if strings.HasPrefix(call, "SetProtocolName:") || strings.HasPrefix(call, "SetProtocolVersion:") {
+					named = true
+				}
+			}
+			if !named && (c1.ProtocolName() != "MQTT" || c1.ProtocolVersion() != 5) {
+				r.fail("default-protocol-name-lost", c, fmt.Sprintf("a CONNECT from NewConnect() has protocol name %q level %d", c1.ProtocolName(), c1.ProtocolVersion()))
+				return
+			}
+		}
 		if !ok || !mqttWellFormed(k, p) {
 			return
 		}
